@@ -26,7 +26,7 @@ RULE = (
 ASSUMPTIONS = ["queries that exceed the line budget of the (combinatorial) search are undecided and counted"]
 FLOORS = {"quick": {"queries_decided": 200, "renumbered_queries": 300, "outside_queries": 60, "distinct_nontrivial": 60}, "thorough": {"queries_decided": 20000}}
 LINE_BUDGET = 6_000_000
-UNITS = ["CO", "CC", "CCO", "CS", "C(F)C", "CC(C)C(=O)OC", "CN"]
+UNITS = ["CO", "CC", "CCO", "CS", "C(F)C", "CC(C)C(=O)OC", "CN", "C(Cl)C", "C(Br)C"]  # the last two: unit masses with a large fractional part (59.475, 103.926)
 FAMS = [
     ("gauss", lambda m: (round(4 * m, 1), round(1.5 * m, 1))), ("gauss", lambda m: (round(2 * m, 1), round(0.8 * m, 1))), ("uniform", lambda m: (int(1.2 * m), int(7 * m))),
     ("log_normal", lambda m: (round(4 * m, 1), 1.3)), ("poisson", lambda m: (round(3.5 * m),)), ("flory_schulz", lambda m: (round(1 / (2 * m), 5),)),
